@@ -7,6 +7,9 @@ every generated table) implies the theorems below about `run A` — the model of
 -/
 import Emboss.Lemmas.Lr1Examples
 import Emboss.Lemmas.Lr1Fast
+import Emboss.Lemmas.Lr1Term
+import Emboss.Lemmas.Lr1Gen
+import Emboss.Lemmas.Lr1TermCex
 namespace Emboss.Lr1
 
 /-- **The compiled validator decides `Valid`.**  `validFast` (hash-set membership; what the
@@ -17,14 +20,15 @@ theorem C08_validator_sound {G : Grammar} {A : Automaton} {C : Cert} (h : validF
 
 /-- **Soundness.**  If the tables validate and the parser accepts `w` with tree `t`, then `t`
 is a derivation of `w`: every node an instance of a production of `G`, the root is the start
-symbol, the leaves are the input tokens in order.  (`w` must not contain a token whose symbol
-is the end-of-input marker: see the open finding `end-of-input-symbol-inside-token-list`.) -/
+symbol, the leaves are the input tokens in order — for **every** token list (a client token
+that carries the end-of-input marker as its symbol has no action since fix 935ff56, so the
+former hypothesis "no `$` token in `w`" is gone). -/
 theorem C08_sound {G : Grammar} {A : Automaton} {C : Cert} (hv : Valid G A C)
-    {w : List Token} (hw : ∀ t ∈ w, t.sym ≠ G.eoi) {fuel : Nat} {t : Tree}
+    {w : List Token} {fuel : Nat} {t : Tree}
     (h : run A fuel w = .accept t) : Derives G t w := by
   obtain ⟨hp, hr, k, hk, hy⟩ := (runFrom_post hv w fuel init (inv_init w)).2 t h
   refine ⟨hp, hr, ?_⟩
-  rw [hy, List.take_of_length_le (lookahead_eoi_ge hw hk)]
+  rw [hy, List.take_of_length_le hk]
 
 /-- **Safety.**  Over validated tables `Parser.parse` never raises: no `KeyError` (missing goto
 or action row), no failed assertion, no stack underflow, no shift past the end of input — for
@@ -54,24 +58,93 @@ theorem C08_unambiguous {G : Grammar} {A : Automaton} {C : Cert} (hv : Valid G A
 /-- **Exactly the grammar's language.**  Over validated tables the parser accepts `w` with tree
 `t` iff `t` is a derivation of `w`. -/
 theorem C08_accepts_iff {G : Grammar} {A : Automaton} {C : Cert} (hv : Valid G A C)
-    {w : List Token} (hw : ∀ t ∈ w, t.sym ≠ G.eoi) (t : Tree) :
+    {w : List Token} (t : Tree) :
     (∃ fuel, run A fuel w = .accept t) ↔ Derives G t w :=
-  ⟨fun ⟨_, h⟩ => C08_sound hv hw h, fun hd =>
+  ⟨fun ⟨_, h⟩ => C08_sound hv h, fun hd =>
     let ⟨f, hf⟩ := C08_complete hv hd
     ⟨f, hf f (Nat.le_refl _)⟩⟩
 
-/- Full statement (NOT proved):
-     theorem C08_terminates (hv : Valid G A C) (w : List Token) : ∃ fuel, run A fuel w ≠ .outOfFuel
-   Missing: termination of runs that end in an error (an infinite sequence of reductions at a fixed
-   input position would have to be excluded through the absence of cyclic derivations).  Proved
-   fragment: -/
-/-- Accepting runs terminate (from completeness); for rejected inputs termination of the model
-run is not proved here: see `C08_error_position`, which is conditional on an error result. -/
-theorem C08_terminates_partial {G : Grammar} {A : Automaton} {C : Cert} (hv : Valid G A C)
+/-- **Termination (accepted and rejected inputs).**  `TermOK A` is the decidable termination
+analysis of Model/Lr1Term.lean (run by the driver on every dumped table, op `LRTERM`: for every
+state, successor state and row key it executes the chain of reductions the table prescribes at
+a fixed cursor and checks that it comes to a Shift/Accept/Error or pops below its starting
+point).  Over a table that passes, `Parser.parse` halts on **every** token list: there is a
+step budget with which the model run returns a result (accept, syntax error, or a Python
+exception) instead of running out of fuel.  Measure: (tokens left, stack height).
+
+`Valid` alone does not imply this — a certificate may carry a FIRST table that is closed but not
+least, and then validates tables with spurious ε-reductions that loop on a lookahead no
+sentence can have (e.g. `S → a | A c; A → B A; B → ε` with `c ∈ FIRST(A)`: the state reached
+over `B` reduces `B → ε` on `c` and returns to itself) — hence the separate, checked hypothesis. -/
+theorem C08_terminates {A : Automaton} (hT : TermOK A) (w : List Token) :
+    ∃ fuel, run A fuel w ≠ .outOfFuel :=
+  run_terminates hT w
+
+/-- **Counterexample: `Valid` alone does not give termination.**  A hand-built table for
+`S → a | A c ; A → B A ; B → ε` whose certificate carries a closed but not least FIRST table
+(`c ∈ FIRST(A)`) satisfies `Valid`, fails the termination analysis, and on the input `c` is
+still running after 200 steps (it reduces `B → ε` on `c` forever).  Not an output of the real
+generator (which computes least FIRST sets); it shows why `C08_terminates` needs `TermOK`. -/
+theorem C08_valid_not_terminating_counterexample :
+    Valid TermCex.G TermCex.A TermCex.C ∧ ¬ TermOK TermCex.A ∧
+      run TermCex.A 200 [⟨6, 0⟩] = .outOfFuel :=
+  ⟨TermCex.valid, TermCex.notTermOK, TermCex.loops⟩
+
+/-- **Total correctness.**  Over tables that validate and pass the termination analysis every
+token list is decided: with enough fuel the run either accepts with a derivation of `w`, or
+reports a syntax error, and then `w` is not a sentence. -/
+theorem C08_decides {G : Grammar} {A : Automaton} {C : Cert} (hv : Valid G A C) (hT : TermOK A)
+    (w : List Token) :
+    ∃ fuel, (∃ t, run A fuel w = .accept t ∧ Derives G t w) ∨
+      (∃ code i s e, run A fuel w = .error code i s e ∧ ¬ Sentence G w) := by
+  obtain ⟨fuel, hf⟩ := C08_terminates hT w
+  refine ⟨fuel, ?_⟩
+  cases hr : run A fuel w with
+  | accept t => exact Or.inl ⟨t, rfl, C08_sound hv hr⟩
+  | error code i s e => exact Or.inr ⟨code, i, s, e, rfl, no_sentence_of_error hv hr (fun _ _ => rfl)⟩
+  | internal m => exact absurd hr (C08_safe hv w fuel m)
+  | outOfFuel => exact absurd hr hf
+
+/-- Accepting runs terminate also without the analysis (from completeness). -/
+theorem C08_terminates_accepting {G : Grammar} {A : Automaton} {C : Cert} (hv : Valid G A C)
     {w : List Token} (hs : Sentence G w) : ∃ fuel t, run A fuel w = .accept t := by
   obtain ⟨t, hd⟩ := hs
   obtain ⟨f, hf⟩ := run_complete hv hd
   exact ⟨f, t, hf f (Nat.le_refl _)⟩
+
+/-! ### Level B: the generator model `gen` (Model/Lr1Gen.lean), closure / goto core
+
+Full statement (NOT proved):
+     theorem C08_gen_valid (h : gen G = some o) (hc : o.conflicts = false) : Valid G o.aut o.cert
+   Proved below: the `VClosure` and `VStart` conjuncts for every output of `gen` (conflict-free or
+   not), and the specification of `closure` / `gotoSet` from which `VKernel`'s item condition
+   follows.  Missing: `VWf` (lookup arrays), `VTrans`/`VKernel` over the BFS numbering, `VComplete` /
+   `VActJust` (action loop), `VOrder` (a justification order of the sorted item lists), `VFirst`.
+   Until then the remaining conjuncts are discharged at run time: `gen G` is compared with the real
+   `Grammar.parser()` on every grammar of the run (identical item sets, numbering, conflict flag,
+   tables — driver op `GEN`), and the real tables are validated (`LRVALID`). -/
+
+/-- **Level B, closure/start.**  Every state of the generated automaton is closed under
+"`[A → α . X β, a]` brings `[X → . γ, c]` for all `c ∈ FIRST(β a)`" (FIRST = the generator's own
+fixed point), state 0 contains `[S' → . start, $]` and consists of dot-0 items only. -/
+theorem C08_gen_valid_partial {G : Grammar} {o : Gen.Out} (h : gen G = some o) :
+    VClosure (listMem o.cert) o.cert ∧ VStart (listMem o.cert) G o.cert :=
+  gen_closure_start h
+
+/-- **Level B, `_closure_of_item`.**  The worklist closure contains its seed, is closed, and
+everything it adds is a dot-0 item that some item of the result brings in (no junk). -/
+theorem C08_gen_closure {C : Cert} {seed S : List Item} (h : Gen.closure C seed = some S) :
+    (∀ x ∈ seed, x ∈ S) ∧ Gen.Closed C S ∧
+      (∀ x ∈ S, x ∈ seed ∨ (x.dot = 0 ∧ ∃ y ∈ S, x ∈ Gen.succsOf C y)) :=
+  Gen.closure_spec h
+
+/-- **Level B, `_parallel_goto`.**  `goto(I, x)` contains the advance of every item of `I` with
+`x` after the dot, is closed, and each of its items is a dot-0 item or such an advance (the item
+condition of the validator's `VKernel`). -/
+theorem C08_gen_goto {C : Cert} {I J : List Item} {x : Nat} (h : Gen.gotoSet C I x = some J) :
+    (∀ it ∈ I, C.nextSyms it = [x] → Gen.advance it ∈ J) ∧ Gen.Closed C J ∧
+    (∀ y ∈ J, y.dot = 0 ∨ ∃ it ∈ I, C.nextSyms it = [x] ∧ y = Gen.advance it) :=
+  Gen.gotoSet_spec h
 
 /-- **Error position.**  If the tables validate and every nonterminal is productive, an error
 reported at index `i` is raised at the first token no sentence can continue with: the consumed
@@ -102,6 +175,19 @@ example : run exA 20 [⟨5, 0⟩, ⟨5, 1⟩, ⟨4, 2⟩] =
     .accept (.node ⟨2, [3, 4]⟩ [.node ⟨3, [5, 3]⟩ [.leaf ⟨5, 0⟩,
       .node ⟨3, [5, 3]⟩ [.leaf ⟨5, 1⟩, .node ⟨3, []⟩ []]], .leaf ⟨4, 2⟩]) := by decide
 example : run exA 20 [⟨5, 0⟩, ⟨5, 1⟩] = .error none 2 3 [4, 5] := by decide
+-- test (tables and result regenerated from the real code): a client token whose symbol is the
+-- end-of-input marker (code 0) is a syntax error at its own index, not "accept what came before"
+example : run exA 60 [⟨5, 0⟩, ⟨0, 1⟩, ⟨5, 2⟩] = .error none 1 3 [4, 5] := exRun3
+example : run exA 60 [⟨5, 0⟩, ⟨4, 1⟩, ⟨0, 2⟩] = .error none 2 4 [0] := exRun5
+-- test: the example tables (regenerated from the real code) pass the termination analysis
+example : TermOK exA := by decide
+example : TermOK f10A := by decide
+-- test: the generator model runs on the example grammar (no conflicts, as many states as the real
+-- parser has) and reports conflicts for the ambiguous `S → S a S | b`
+example : (gen exG).map (fun o => (o.conflicts, o.cert.items.size)) = some (false, exC.items.size) := by
+  decide +kernel
+example : (gen ⟨2, [⟨2, [2, 3, 2]⟩, ⟨2, [4]⟩], 1, 0⟩).map (·.conflicts) = some true := by decide +kernel
+example : (Gen.closure exC [⟨2, 0, 0⟩]).isSome = true := by decide
 example : Reduced exG :=
   ⟨by
     have hA : Productive exG 3 := ⟨.node ⟨3, []⟩ [], ParseTree.node _ _ (by decide) (by simp) rfl, rfl⟩
